@@ -256,13 +256,25 @@ impl Property for P06 {
                     // filter pattern with an action, end to end: the action runs iff the pattern value is truthy
                     let dir = scratch_dir("c06");
                     let path = dir.join("f.p2");
-                    let src = format!("let v = {};\n@ v {{ println(\"ACTION\"); }}\n", val.to_src());
+                    let src = format!("let v = {};\n@ v {{ println(\"ACTION\"); }}\n@ true {{ println(\"NEXT\"); }}\n", val.to_src());
                     std::fs::write(&path, &src).unwrap();
                     let o = run_bin(&["-s", path.to_str().unwrap()], &one_packet_pcap(), &[], 10);
                     if o.crashed() {
                         return CaseOut::viol(class, format!("binary crashed: {}", one_line(&o.err_s(), 200)));
                     }
                     let ran = o.out_s().contains("ACTION");
+                    // a falsey pattern behaves like `false`: no error, and the filters after it still run
+                    if o.err_s().contains("Runtime error") || !o.out_s().contains("NEXT") {
+                        return CaseOut::viol(class, format!("the pattern value {} is not simply tested for truthiness: stdout {:?} stderr {}", val.to_src(), one_line(&o.out_s(), 80), one_line(&o.err_s(), 160)));
+                    }
+                    // without an action the packet is written exactly when the pattern value is truthy
+                    let src2 = format!("let v = {};\n@ v\n", val.to_src());
+                    std::fs::write(&path, &src2).unwrap();
+                    let o2 = run_bin(&[path.to_str().unwrap()], &one_packet_pcap(), &[], 10);
+                    let written = o2.stdout.len() > 24;
+                    if o2.crashed() || o2.err_s().contains("Runtime error") || written == f {
+                        return CaseOut::viol(class, format!("action-less filter with pattern value {} (falsey={}): packet written={} stderr {}", val.to_src(), f, written, one_line(&o2.err_s(), 160)));
+                    }
                     return if ran == !f {
                         CaseOut::pass(class)
                     } else {
@@ -310,7 +322,7 @@ impl Property for P06 {
         json!({"values": self.vals.len(), "positions": self.npos(), "pairs": self.vals.len() * self.vals.len() * 2})
     }
     fn assumptions(&self) -> Vec<String> {
-        vec!["in the filter position only 'the action runs iff the pattern value is truthy' is compared (what an action-less filter does with a non-boolean pattern is not specified by C06)".into(),
+        vec!["in the filter position, through the binary: the action runs iff the pattern value is truthy, no runtime error is raised, the filters after it still run, and an action-less filter writes the packet iff the value is truthy".into(),
              "values outside the representative set are not covered".into()]
     }
 }
